@@ -109,7 +109,7 @@ def r2(chk):
     if len(maps) != 1:
         raise Inconclusive("struct_pre_init: expected one .map(closure) over init_data")
     src = render(maps[0]["recv"]).replace(" ", "")
-    chk.expect("R2", "struct_pre_init/order", src == "init_data.iter()", EXPAND, maps[0]["line"], "vars are not emitted in declaration order", expected="init_data.iter()", found=src)
+    chk.shape("R2", "struct_pre_init/order", src == "init_data.iter()", bool(re.search(r"\.(rev|skip|take|step_by|filter)\(", src)), EXPAND, maps[0]["line"], "vars are not emitted in declaration order", expected="init_data.iter()", found=src)
     cl = maps[0]["args"][0]
 
     def mk():
@@ -217,7 +217,7 @@ def r5(chk):
         raise Inconclusive("get_quote_trait_params: QuoteTraitParams literal not found")
     st = {f["member"]: render(f["expr"]).replace(" ", "") for f in lits[0]["fields"]}
     for slot, fld in (("attr", "attribute"), ("impl_attr", "impl_attribute"), ("inner_attr", "inner_attribute")):
-        chk.expect("R5", f"provenance[{slot}]", st.get(slot) == f"ctx.struct_attr.{fld}.as_ref()", EXPAND, lits[0]["line"], "slot fed from the wrong parameter",
+        chk.shape("R5", f"provenance[{slot}]", st.get(slot) == f"ctx.struct_attr.{fld}.as_ref()", bool(re.fullmatch(r"ctx\.struct_attr\.(attribute|impl_attribute|inner_attribute)\.as_ref\(\)", st.get(slot) or "")), EXPAND, lits[0]["line"], "slot fed from the wrong parameter",
                    expected=f"ctx.struct_attr.{fld}.as_ref()", found=st.get(slot))
     # wrappers at the parse site
     fp = repo.fn(ATTR, "parse_trait_instruction_param")
